@@ -711,4 +711,27 @@ fire('tok12-error-char-without-reposition', ['C01', 'C09'], ['TOK-12'], 'the `#`
 silent('s-tok12-reposition-by-length', ['C01', 'C09'], 'the format-spec colon repositions with start + len(token)',
        (TOK, "                    token = ':'\n                    pos = start + 1\n", "                    token = ':'\n                    pos = start + len(token)\n"))
 
+fire('wrap1-one-level-unwrap-helper', ['C04'], ['WRAP-1'], 'decorated / async wrappers are unwrapped by a helper that steps one level only (rt2-C04, reduced)',
+     (DIFF, "def _func_or_class_has_suite(node):\n    if node.type == 'decorated':\n        node = node.children[-1]\n    if node.type in ('async_funcdef', 'async_stmt'):\n        node = node.children[-1]\n",
+      "def _get_def_node(node):\n    if node.type in ('decorated', 'async_funcdef', 'async_stmt'):\n        return node.children[-1]\n    return node\n\n\ndef _func_or_class_has_suite(node):\n    node = _get_def_node(node)\n"))
+fire('wrap1-async-step-dropped', ['C04'], ['WRAP-1'], 'the copier no longer steps through async_funcdef after decorated',
+     (DIFF, "                if n.type == 'decorated':\n                    n = n.children[-1]\n                if n.type in ('async_funcdef', 'async_stmt'):\n                    n = n.children[-1]\n", "                if n.type == 'decorated':\n                    n = n.children[-1]\n"))
+silent('s-wrap1-loop-unwrap', ['C04'], 'the two steps written as one loop',
+       (DIFF, "def _func_or_class_has_suite(node):\n    if node.type == 'decorated':\n        node = node.children[-1]\n    if node.type in ('async_funcdef', 'async_stmt'):\n        node = node.children[-1]\n",
+        "def _func_or_class_has_suite(node):\n    while node.type in ('decorated', 'async_funcdef', 'async_stmt'):\n        node = node.children[-1]\n"))
+
+fire('rx13-fstring-continuation-not-crlf', ['C10', 'C09', 'C01'], ['RX-13'], 'the single-line f-string text pattern escapes any one character after a backslash: backslash + CRLF is no longer one unit (rt10-C10)',
+     (TOK, "    + r'\\}|\\\\(?:\\r\\n?|\\n)|\\\\[^\\r\\nN]|[^{}\\r\\n\\\\])+'", "    + r'\\}|\\\\[^N]|[^{}\\r\\n\\\\])+'"))
+fire('rx13-format-spec-continuation-lf-only', ['C10', 'C09', 'C01'], ['RX-13'], 'the single-line format-spec pattern continues a line only over backslash + LF',
+     (TOK, "fstring_format_spec_single_line = _compile(r'(?:\\\\(?:\\r\\n?|\\n)|[^{}\\r\\n])+')", "fstring_format_spec_single_line = _compile(r'(?:\\\\\\n|[^{}\\r\\n])+')"))
+silent('s-rx13-alternatives-reordered', ['C10', 'C09', 'C01'], 'the line-continuation alternative of the format-spec pattern spelled out in another order',
+       (TOK, "fstring_format_spec_single_line = _compile(r'(?:\\\\(?:\\r\\n?|\\n)|[^{}\\r\\n])+')", "fstring_format_spec_single_line = _compile(r'(?:\\\\(?:\\n|\\r\\n|\\r)|[^{}\\r\\n])+')"))
+
+fire('pos1-part-offset-by-search', ['C03', 'C09'], ['POS-1'], 'the column of a split-name part is token.index(part) instead of the loop index (rt10-C03)',
+     (TOK, "    def create_token():\n        return PythonToken(ERRORTOKEN if is_illegal else NAME, found, pos, prefix)", "    def create_token():\n        pos = start_pos[0], start_pos[1] + token.index(found)\n        return PythonToken(ERRORTOKEN if is_illegal else NAME, found, pos, prefix)"))
+silent('s-pos1-child-index', ['C03', 'C09'], 'an index lookup in a list of nodes (identity) is not a text search',
+       (TREE, "            i = c.index(node)\n", "            i = c.index(node)  # identity lookup in the children list\n"))
+fire('par14-dedent-bookkeeping-in-add-token', ['C02', 'C07'], ['PAR-14', 'PAR-6'], 'the INDENT / DEDENT counting moves from the token-stream filter into an _add_token override, which error_recovery calls again for the token it recovered on (rt10-C02, reduced)',
+     (PYPARSER, "    def _recovery_tokenize(self, tokens):", "    def _add_token(self, token):\n        typ = token[0]\n        if self._error_recovery:\n            if typ == DEDENT:\n                self._indent_counter -= 1\n            elif typ == INDENT:\n                self._indent_counter += 1\n        super()._add_token(token)\n\n    def _recovery_tokenize(self, tokens):"), analysis_error_ok=True)
+
 VARIANTS = [v for v in VARIANTS if v is not None]
